@@ -14,15 +14,22 @@ SPEC = dict(
          "unnamed Type / RawConfig bits) through QToProto -> Marshal/Unmarshal -> QFromProto; 20% random protobuf Q messages with "
          "unset children / unset oneof / invalid patterns / invalid bitmaps through QFromProto; 20% Search/StreamSearch/List "
          "requests (unset query, nil opts, unset stream request, overflowing durations) against the real Server over a real "
-         "one-shard directory searcher with recover(). Non-trivial = encoded value > 200 (150 for queries) characters, and every "
-         "wire-side / handler case.",
+         "one-shard directory searcher with recover(), the first 15 directed (every handler x every subset of {query, opts} set, "
+         "StreamSearch without inner request); a wrapping Streamer records the (query, options) the handler hands to the searcher "
+         "and the result it returns: WHandlerA (decoding) and WHandlerR (response = model's encoding of that result) cases. Every run "
+         "also: XFromProto(nil) and XFromProto(&X{}) of all 19 zoekt and 18 query struct types, and every ToProto output again with a "
+         "random subset of its sub-messages / map values unset. Non-trivial = encoded value > 200 (150 for queries) characters, and "
+         "every wire-side / handler / unset-message case.",
     trusted_base=["correspondence harness harness/overlay/grpcserver/zz_verif_c24_test.go (reflective encoder into the model's `val`, generators, Go oracle)",
                   "translator/protofields (go/ast + go/types classification of the conversion expressions); an expression it cannot classify becomes CUnknown and fails fields_ok",
                   "regexp printing/parsing fidelity (CReTo/CReFrom: property C27) and the roaring bitmap codec (CBitmapTo/CBitmapFrom) are assumed inverse",
                   "time.Time represented as (Unix seconds, nanoseconds): location and monotonic clock are not on the wire; Go int is 64 bit",
-                  "handler model: only request decoding and the dispatch to the searcher are modelled; the searcher is a section variable"],
+                  "handler model: request decoding, dispatch and response encoding (res.ToProto()) are modelled; the searcher is a section variable "
+                  "assumed not to panic on non-nil options and to return values of the result type's round-trip domain; the chunking of stream events (grpc/chunk) is outside",
+                  "protobuf-go getters return the zero value on a nil receiver (XFromProto(nil) = XFromProto(&X{}) for getter-only functions; checked by the harness oracle nil-vs-empty)"],
     assumptions=["Go int is 64 bit", "regexp print/parse and roaring encode/decode are inverse (trusted codecs)",
-                 "searchers dereference *SearchOptions (nil options panic) and accept nil *ListOptions"],
+                 "searchers dereference *SearchOptions (nil options panic) and accept nil *ListOptions",
+                 "searchers return results inside the round-trip domain of SearchResult / RepoList (named enum values, non-nil RepoList)"],
 )
 
 
